@@ -572,10 +572,7 @@ def roundtrip_case(rng, kind, nitems, arr_max=100, p_switch=0.2):
             if op == "wdsb" and kind == "sb":
                 op = "wb"
             if op == "wca":
-                if kind != "sb":
-                    op = "wc"
-                else:
-                    s = s[:rng.randrange(0, 16)]
+                s = s[:rng.randrange(0, 16)]
             wl.append("%s %s" % (op, hexs(s)))
             n = len(s.split(b"\0")[0]) if op in ("wz", "wc", "wca") else len(s)   # wb / ws / wdsb: all the bytes
             rl.append("rb %d" % n)
@@ -1002,7 +999,7 @@ def _reference(line):
         if op in ("wca", "wcarr"):
             if s["reading"]:
                 return "closed"
-            if s["kind"] != "sb":
+            if op == "wcarr" and s["kind"] != "sb":
                 return "na"
             if op == "wca":
                 b = unhex(t[1]).split(b"\0")[0]
@@ -1142,14 +1139,16 @@ EXHAUSTIVE = {"quick": "every type x {default,BIG,LITTLE,NATIVE} x {StreamBuffer
               "thorough": "the same scalar grid; Array<T> for every type x order x class at every length 0..100"}
 
 KNOWN = [{"key": "string-read-not-inverse",
-          "desc": "File/Socket operator>>(String&) is not the inverse of operator<<(const String&)",
+          "desc": "File/Socket operator>>(String&) is not the inverse of operator<<(const String&); the same holds per item for >> Array<String> vs << Array<String>",
           "case": ["new file native", "ws 68656c6c6f20776f726c64", "reader native", "rsame 68656c6c6f20776f726c64"]}]
 # excluded input class (exactly): `>> String` applied to bytes written by `<< String` with the expectation of getting the
 # string back (op `rsame`, never generated).  `rs` on arbitrary bytes (incl. hostile lengths) IS generated and modelled.
 
 TRUSTED = ["tools/props/c16.py translate(): regex extraction (byte-order test of every operator<< / operator>>, byte count of the "
            "non-swapping Array<T> branch, shift/index terms and _ptr advance of read2/4/8, readN dispatch of the operator>> overloads, the index expression of swapBytes, "
-           "default byte orders; shape check of the raw-byte overloads, StreamBuffer::write, StreamBufferReader::read(n)/skip) from include/asl/{defs,StreamBuffer,File,Socket}.h and src/Socket.cpp into lean/Gen/StreamGen.lean; "
+           "default byte orders, IsArithmetic<T> via a second probe, the tests and counts of File/Socket operator>>(Array<T>&); whole-body shape checks (TranslateError otherwise, nothing generated) "
+           "of the raw-byte overloads, operator<<(char*), StreamBuffer's operator<<(const T (&)[N]), StreamBuffer::write, StreamBufferReader::read(n)/skip, the put_/get_ Array dispatch of the generic "
+           "File/Socket operators, File::operator>>(String&), Socket::readString, the size<=0 guard of Socket_::read) from include/asl/{defs,StreamBuffer,File,Socket}.h and src/Socket.cpp into lean/Gen/StreamGen.lean; "
            "a compiled 10-line probe program for ASL_OTHER_ENDIAN, the compiler's byte order and sizeof of the 12 types",
            "the harness observes written bytes outside asl (buffer content, POSIX pread on the temp file, recv on the raw socketpair peer) "
            "and feeds readers from those observed bytes"]
@@ -1173,8 +1172,12 @@ LEVEL_TEXT = ("Proved in Lean 4 for all three classes, all 12 scalar types, all 
               "writing the same array again, also after a switch, gives its canonical bytes again (array_rewrite_canonical); "
               "Array<String> appends the strings' bytes in every order and never object memory (string_array_canonical); File/Socket >> Array<T> "
               "(length set by the caller) is the inverse of << Array<T> for every type, order and length, item-by-item and one-block branch alike (array_get_put); "
-              "File >> String on arbitrary data returns only bytes that are there, the empty string for a negative length (string_read_total); "
-              "StreamBuffer << T[N] is the items' encodings in array order in every byte order (carray_canonical); "
+              "(string_read_total is a weaker corollary of string_read_spec, kept) "
+              "StreamBuffer << T[N] with T other than char is the items' encodings in array order in every byte order (carray_canonical; File/Socket have no T[N] "
+              "operator and a char[N] is a C string for operator<<, modelled as .cstr: the history theorems write_canonical / read_back / read_back_array_op carry the "
+              "well-formedness hypothesis WF that a .carray occurs only on StreamBuffer with T != char); "
+              "whole histories also read back when every Array<T> is read with one stream >> Array<T> (read_back_array_op, File/Socket); >> String as a function of "
+              "the bytes: the next n bytes for the int32 prefix n, 0 when negative, File clamped to what exists (string_read_spec); "
               "length-prefixed strings, NULs included, read back on File and Socket (string_read_back). The two switch theorems and the raw-byte cases of read_back hold by the shape "
               "of the model (setEndian writes/reads no byte; ByteArray/String/const char* writes are the bytes themselves; read(n)/skip are take/drop): "
               "likewise a model write cannot alter its argument (it returns only the new order and the bytes): that the real operator<< leaves the "
@@ -1188,7 +1191,7 @@ LEVEL_NOTE = ("Trusted: Lean kernel, the regex translator + compiler probe, the 
               "fwrite/fread/send/read transfer all bytes (partial-transfer loops belong to C17/C10). NATIVE = LITTLE in StreamBufferReader is correct "
               "only on a little-endian host: obligation gen_reader_cond fails on a big-endian build. Only K-validated (no theorem): which C++ overload "
               "is selected per type (the bodies of StreamBuffer's bool/byte/char overloads, of the ByteArray/Array<byte>/String/const char* overloads, of File/Socket >> char/byte and of StreamBufferReader::read(n)/skip are shape-checked by the translator, TranslateError otherwise), setEndian taking effect immediately, default byte orders, "
-              "skip/read(n), Socket >> String truncation at NUL. Reads past the end and File/Socket >> bool of a byte other than 0/1 are outside the property "
+              "skip/read(n). Reads past the end and File/Socket >> bool of a byte other than 0/1 are outside the property "
               "(guarded in the protocol). Fixed defects kept as corpus witnesses: 264bf86 (Array<T> in native order wrote length() bytes), fbcbf17 (a StreamBuffer written into itself read freed "
               "storage), 8a61870 (Array<String> in native order wrote String object memory), e37681a (>> String trusted its length: out-of-bounds write), cdda882 "
               "(>> Array<T> read raw bytes over the Array object), 8331f50 (a zero-length Socket read marked the socket as failed), b125771 (Socket::readString cut the value at the first NUL; "
@@ -1197,6 +1200,10 @@ LEVEL_NOTE = ("Trusted: Lean kernel, the regex translator + compiler probe, the 
               "derived from Array<T> — Stack, Queue, StreamBuffer — used the raw memory of the handle; ops wd / wdsb / rd; in the model such an object is the Array it is, so "
               "array_canonical / array_get_put apply; that C++ overload resolution reaches the Array overload is K + translator shape check). The stream object's own "
               "view (Socket error(), available() = unread bytes) has no theorem: the model has no failure state for reads of bytes that are there; the harness "
-              "checks error() after every socket operation and the `state` op compares available() with the model's unread byte count (K only). Known finding string-read-not-inverse: >> String expects an int32 length that << String does not write "
+              "checks error() after every socket operation and the `state` op compares available() with the model's unread byte count (K only). File/Socket >> Array<String> is unmodelled and has no op (it is one >> String per item, so it shares the known finding below: "
+              "<< Array<String> writes no lengths, >> expects one int32 length per item; gen_array_readers only shows that this path goes item by item). The out-of-bounds write "
+              "repaired by e37681a is not expressible over lists: it is carried by the translator's whole-body shape check of File::operator>>(String&) and ASan. "
+              "Not exercised: >> StreamBuffer through get_, const T[N] / const char[N] objects (string literals go to the const char* overload). "
+              "Known finding string-read-not-inverse: >> String expects an int32 length that << String does not write "
               "(library format decision; probe `rsame`, printed as KNOWN-FINDING; exactly that expectation is excluded from the generator, `rs` on arbitrary bytes is generated). "
               "A write of the buffer's own bytes (wself) is modelled as a ByteArray write whose value is the current content.")
